@@ -26,6 +26,7 @@ import (
 	"os"
 	"os/exec"
 	"path/filepath"
+	"regexp"
 	"sort"
 	"strconv"
 	"strings"
@@ -208,6 +209,15 @@ func c16Upper(s string) string {
 }
 
 func (m *c16Module) enumByName(n string) *c16Enum {
+	if i := strings.Index(n, "::"); i >= 0 {
+		if m.Dep != nil && m.Dep.Name == n[:i] {
+			return m.Dep.enumByName(n[i+2:])
+		}
+		if n[:i] != m.Name {
+			return nil
+		}
+		n = n[i+2:]
+	}
 	for _, d := range m.Decls {
 		if d.E != nil && d.E.Name == n {
 			return d.E
@@ -216,6 +226,15 @@ func (m *c16Module) enumByName(n string) *c16Enum {
 	return nil
 }
 func (m *c16Module) isStruct(n string) bool {
+	if i := strings.Index(n, "::"); i >= 0 {
+		if m.Dep != nil && m.Dep.Name == n[:i] {
+			return m.Dep.isStruct(n[i+2:])
+		}
+		if n[:i] != m.Name {
+			return false
+		}
+		n = n[i+2:]
+	}
 	for _, d := range m.Decls {
 		if d.S != nil && d.S.Name == n {
 			return true
@@ -278,7 +297,7 @@ func c16PlainLit(t *c16Ty, lit string, m *c16Module) string {
 }
 
 // what the generated struct type must look like
-func c16ExpectStruct(s *c16Struct, m *c16Module) string {
+func c16ExpectStruct(s *c16Struct, m *c16Module, jsonSuffix string) string {
 	mbs := append([]c16Member(nil), s.Mb...)
 	sort.SliceStable(mbs, func(i, j int) bool { return mbs[i].Tag < mbs[j].Tag })
 	var parts []string
@@ -291,7 +310,7 @@ func c16ExpectStruct(s *c16Struct, m *c16Module) string {
 		if mb.Def != "" {
 			d = c16PlainLit(mb.Ty, mb.Def, m)
 		}
-		parts = append(parts, fmt.Sprintf("%d:%s:%s:%s:%s:%s=%s", mb.Tag, coqBool(mb.Req), c16Upper(mb.Key), mb.Key, mb.Key, gt, d))
+		parts = append(parts, fmt.Sprintf("%d:%s:%s:%s:%s:%s=%s", mb.Tag, coqBool(mb.Req), c16Upper(mb.Key), mb.Key, mb.Key+jsonSuffix, gt, d))
 	}
 	return c16Upper(s.Name) + "{" + strings.Join(parts, ";") + "}"
 }
@@ -310,9 +329,8 @@ func c16ExpectConst(c *c16Const, m *c16Module) string {
 }
 
 // registration source for one program (see harness/c16drv/main.go)
-func c16RegSource(idx int, m *c16Module, imp string) (imports string, body string, decls string) {
+func c16RegSource(idx int, m *c16Module) (body string, decls string) {
 	pk := m.Name
-	imports = fmt.Sprintf("\t%s %q\n", pk, imp)
 	var b, d strings.Builder
 	for _, dc := range m.Decls {
 		switch {
@@ -370,7 +388,7 @@ func c16RegSource(idx int, m *c16Module, imp string) (imports string, body strin
 				idx, it.Name, pk, gn, pk, gn, pk, gn, strings.Join(fr, ", "))
 		}
 	}
-	return imports, b.String(), d.String()
+	return b.String(), d.String()
 }
 
 type c16Prog struct {
@@ -476,10 +494,14 @@ func c16TV(a Args, res *Result, t2g string, dir string, progs []*c16Prog, per, c
 	// the driver
 	var imps, body, decls strings.Builder
 	for k, p := range live {
-		i, b, d := c16RegSource(k, p.Mod, "c16tv/gen/"+p.Mod.Name)
-		imps.WriteString(i)
+		b, d := c16RegSource(k, p.Mod)
 		body.WriteString(b)
 		decls.WriteString(d)
+	}
+	for _, p := range live { // the packages the registrations mention (a module without declarations has no package)
+		if strings.Contains(body.String()+decls.String(), p.Mod.Name+".") {
+			fmt.Fprintf(&imps, "\t%s %q\n", p.Mod.Name, "c16tv/gen/"+p.Mod.Name)
+		}
 	}
 	reg := "// generated by harness/c16tv.go\npackage main\n\nimport (\n\t\"context\"\n\n" + imps.String() + ")\n\nvar _ context.Context\n\nfunc init() {\n" + body.String() + "}\n\n" + decls.String()
 	os.WriteFile(filepath.Join(dir, "main.go"), []byte(c16DrvSrc), 0o644)
@@ -525,7 +547,13 @@ func c16TV(a Args, res *Result, t2g string, dir string, progs []*c16Prog, per, c
 		for _, d := range p.Mod.Decls {
 			switch {
 			case d.S != nil:
-				es = append(es, c16ExpectStruct(d.S, p.Mod))
+				js := ""
+				for _, f := range p.Flags {
+					if f == "-json-omitempty" {
+						js = ",omitempty"
+					}
+				}
+				es = append(es, c16ExpectStruct(d.S, p.Mod, js))
 			case d.E != nil:
 				ee = append(ee, c16ExpectEnum(d.E))
 			case d.C != nil:
@@ -548,6 +576,10 @@ func c16TV(a Args, res *Result, t2g string, dir string, progs []*c16Prog, per, c
 		cmp("enum", ee, o.Enums)
 		cmp("const", ec, o.Consts)
 		// Coq: schema (model from the IDL text = reflected from the generated code) and codec cases
+		if p.Mod.Dep != nil { // the model covers one file: programs with an include are validated by the monitors above only
+			stats["with_include"]++
+			continue
+		}
 		var enumVals []string
 		for _, e := range o.Enums {
 			var vs []string
@@ -640,6 +672,9 @@ func c16CompileClass(out string) string {
 	if i := strings.Index(l, ": "); i >= 0 {
 		l = l[i+2:]
 	}
+	if c16ByteArrayErr.MatchString(l) {
+		return "fixed-byte-array-passed-as-slice"
+	}
 	for _, k := range []string{"cannot use", "undefined", "redeclared", "mismatched types", "has no field or method", "overflows", "truncated", "declared and not used", "invalid operation", "cannot convert", "does not implement"} {
 		if strings.Contains(l, k) {
 			return strings.ReplaceAll(k, " ", "-")
@@ -648,10 +683,36 @@ func c16CompileClass(out string) string {
 	return "other"
 }
 
-func c16TvProgram(rng *rand.Rand, idx int, opt c16GenOpt) *c16Prog {
-	m := c16GenModule(rng, fmt.Sprintf("Tv%d", idx), opt, true)
+var c16ByteArrayErr = regexp.MustCompile(`cannot use &?st\.\w+ \((value|variable) of type \*?\[\d+\]u?int8\) as \*?\[\]u?int8 value in argument to (readBuf|buf)\.(Read|Write)Slice(Int8|Uint8)`)
+
+// the codegen gap known since the design round: a fixed array of bytes
+func c16GapProgram() *c16Prog {
+	m := &c16Module{Name: "TvGap", Decls: []c16Decl{{S: &c16Struct{Name: "Blob", Mb: []c16Member{
+		{Tag: 0, Req: true, Ty: &c16Ty{K: "byte"}, Key: "raw", ArrLen: 4},
+		{Tag: 1, Req: false, Ty: &c16Ty{K: "byte", Unsigned: true}, Key: "uraw", ArrLen: 2}}}}}}
+	return &c16Prog{Idx: -1, Mod: m, Text: c16Join(m.toks(), nil, 0)}
+}
+
+func c16TvProgram(rng *rand.Rand, idx int, opt c16GenOpt, dep *c16Prog) *c16Prog {
+	var dm *c16Module
+	if dep != nil {
+		dm = dep.Mod
+	}
+	m := c16GenModuleDep(rng, fmt.Sprintf("Tv%d", idx), opt, true, dm)
 	return &c16Prog{Idx: idx, Mod: m, Text: c16Join(m.toks(), rng, idx%2)}
 }
+
+func c16HasTypes(m *c16Module) bool {
+	for _, d := range m.Decls {
+		if d.S != nil || d.E != nil {
+			return true
+		}
+	}
+	return false
+}
+
+// option sets the generator is run with (the first is the default, the second is tars/protocol/res/Makefile's)
+var c16FlagSets = [][]string{nil, {"-without-trace=true", "-add-servant=false"}, {"-json-omitempty"}, nil, {"-dispatch-reporter"}}
 
 // ---------- (c) the protocol bindings ----------
 func c16NormGo(src []byte) string {
@@ -764,15 +825,26 @@ func c16BackEnd(a Args, rng *rand.Rand, res *Result, cases []c16Case, replay *c1
 	c16BinaryMonitor(a, res, cases, t2g, base)
 	res.Stats["binary_wall_s"] = time.Since(t0).Seconds()
 	t1 := time.Now()
-	nbatch, nprog, per, calls := 1, 8, 5, 4
+	nbatch, nprog, per, calls := 3, 10, 5, 4
 	if a.Tier == "thorough" {
-		nbatch, nprog, per, calls = 10, 12, 12, 8
+		nbatch, nprog, per, calls = 25, 12, 12, 8
 	}
+	c16TV(a, res, t2g, filepath.Join(base, "tvgap"), []*c16Prog{c16GapProgram()}, per, calls, &off)
 	idx := 0
 	for b := 0; b < nbatch; b++ {
 		var progs []*c16Prog
 		for k := 0; k < nprog; k++ {
-			progs = append(progs, c16TvProgram(rng, idx, c16GenOpt{Compilable: true, Small: k%3 == 2}))
+			opt := c16GenOpt{Compilable: true, Small: k%3 == 2, IdBase: 100 * (k % 2)}
+			var dep *c16Prog
+			if k%4 == 3 && c16HasTypes(progs[k-1].Mod) && progs[k-1].Mod.Dep == nil { // this file includes the previous one and uses its types
+				dep = progs[k-1]
+			}
+			p := c16TvProgram(rng, idx, opt, dep)
+			p.Flags = c16FlagSets[(b+k)%len(c16FlagSets)]
+			if dep != nil {
+				p.Flags = dep.Flags
+			}
+			progs = append(progs, p)
 			idx++
 		}
 		c16TV(a, res, t2g, filepath.Join(base, fmt.Sprintf("tv%d", b)), progs, per, calls, &off)
